@@ -216,89 +216,14 @@ def run(repo, res):
     res.count('calls_resolved', n_resolved, floor=150)
     res.extra['calls_total'] = n_calls
 
-    # ---- R5 close typestate ----------------------------------------------
+    # ---- R5 close typestate / R6 server leaves its loop (interpreted on a modelled connection) --------------
+    from .. import api_model
     close = methods.get('close')
     if close is None:
         raise AnalysisError('Environment.close vanished')
-    seq = []
-    for n in ast.walk(close):
-        if isinstance(n, ast.Call) and isinstance(n.func, ast.Attribute) and unparse(n.func.value) == 'self.conn':
-            seq.append((n.lineno, n.col_offset, 'call:' + n.func.attr, n))
-        if isinstance(n, ast.Delete) and any(unparse(t) == 'self.conn' for t in n.targets):
-            seq.append((n.lineno, n.col_offset, 'del', n))
-        if isinstance(n, ast.Call) and unparse(n.func) == 'delattr' and "'conn'" in unparse(n):
-            seq.append((n.lineno, n.col_offset, 'del', n))
-    seq.sort(key=lambda x: x[:2])
-    kinds = [s[2] for s in seq]
-    res.check('C16-R5', 'close sequence', kinds == ['call:send_bytes', 'call:close', 'del'], REMOTE, close.lineno,
-              'close() must send the close request, close the connection and forget it, in that '
-              'order; found %s' % kinds, sample='close(): %s' % kinds)
-    # request name matches the server's test
-    sent = None
-    for s in seq:
-        if s[2] == 'call:send_bytes':
-            for c in ast.walk(s[3]):
-                if isinstance(c, ast.Tuple) and c.elts and isinstance(c.elts[0], ast.Constant) \
-                        and isinstance(c.elts[0].value, str):
-                    sent = c
-                    break
     srv_run = repo.method(SERVER, 'Server', 'run')
-    tested = None
-    for n in ast.walk(srv_run):
-        if isinstance(n, ast.Compare) and len(n.comparators) == 1 and isinstance(n.comparators[0], ast.Constant) \
-                and unparse(n.left) == 'args[0]':
-            tested = n.comparators[0].value
-    res.check('C16-R5', 'close request name', sent is not None and sent.elts[0].value == tested, REMOTE,
-              close.lineno, 'the request close() sends (%s) must be the one Server.run treats as '
-              'shutdown (%r)' % (unparse(sent) if sent else None, tested))
-    if sent is not None:
-        res.check('C16-R5', 'close request shape', len(sent.elts) == 3, REMOTE, close.lineno,
-                  'the close request must have the (name, args, kwargs) shape of every request', nontrivial=False)
-    # the not-connected path must be a no-op (so close() on a fresh client is harmless)
-    # and the existence test is the same attribute the other methods use.
-
-    # ---- R6 server leaves its loop ----------------------------------------
-    loops = [n for n in srv_run.body if isinstance(n, ast.While)]
-    if len(loops) != 1:
-        raise AnalysisError('Server.run: expected one loop')
-    loop = loops[0]
-    recv = [c for c in calls_in(loop) if isinstance(c.func, ast.Attribute) and c.func.attr == 'recv_bytes']
-    if len(recv) != 1:
-        raise AnalysisError('Server.run: expected one recv_bytes site')
-    tr = enclosing_try_bodies(recv[0], loop)
-    if not tr:
-        res.check('C16-R6', 'receive errors', False, SERVER, recv[0].lineno,
-                  'recv_bytes/decoding is not inside a try: EOF (client gone) raises out of run()')
-    else:
-        t = tr[0]
-        eof = [h for h in t.handlers if h.type is not None and 'EOFError' in unparse(h.type)]
-        other = [h for h in t.handlers if handler_catches(h)]
-        eof_ok = any(always_exits(h.body, (ast.Break, ast.Return)) for h in eof) or \
-            (not eof and any(always_exits(h.body, (ast.Break, ast.Return)) for h in other))
-        res.check('C16-R6', 'EOF leaves loop', eof_ok, SERVER, t.lineno,
-                  'when the client end disappears (EOFError) the server must leave its loop',
-                  sample='except EOFError -> break')
-        oth_ok = any(always_exits(h.body, (ast.Break, ast.Return)) for h in other)
-        res.check('C16-R6', 'decode error leaves loop', oth_ok, SERVER, t.lineno,
-                  'any other receive/decoding error must also leave the loop (a desynchronised '
-                  'stream cannot be resumed)', sample='except Exception -> break')
-        # decoding is inside the same try
-        dec = [c for c in calls_in(t) if unparse(c.func) in ('loads', 'unpackb', 'umsgpack.loads')]
-        res.check('C16-R6', 'decoding inside the try', bool(dec) and all(enclosing_try_bodies(c, loop) for c in dec),
-                  SERVER, t.lineno, 'loads() of the request must be covered by the receive handler', nontrivial=False)
-    close_if = None
-    for n in ast.walk(loop):
-        if isinstance(n, ast.If) and isinstance(n.test, ast.Compare) and 'close' in unparse(n.test):
-            close_if = n
-    if close_if is None:
-        raise AnalysisError("Server.run: no test for the 'close' request")
-    branch = close_if.body if '==' in unparse(close_if.test) else close_if.orelse
-    res.check('C16-R6', 'close request leaves loop', always_exits(branch, (ast.Break, ast.Return)), SERVER,
-              close_if.lineno, 'a close request must end the server loop', sample="args[0] == 'close' -> break")
-    # nothing after the loop blocks, and __main__ ends after run()
-    after = srv_run.body[srv_run.body.index(loop) + 1:]
-    res.check('C16-R6', 'run returns after loop', not any(isinstance(s, (ast.While, ast.For)) for s in after),
-              SERVER, srv_run.lineno, 'Server.run must return once the loop is left', nontrivial=False)
+    api_model.apply(res, api_model.client_model(repo), {'close': 'C16-R5'}, REMOTE, close.lineno)
+    api_model.apply(res, api_model.server_model(repo), {'close': 'C16-R6', 'eof': 'C16-R6'}, SERVER, srv_run.lineno)
     main = None
     for n in repo.tree(SERVER).body:
         if isinstance(n, ast.If) and '__main__' in unparse(n.test):
